@@ -14,8 +14,8 @@ from sim.harness import draw_knobs
 
 ID = "C06"
 LEVEL = "exploration"
-RUNS = {"quick": 3000, "thorough": 150000}
-WALL_CAP = {"quick": 100, "thorough": 3000}
+RUNS = {"quick": 3000, "thorough": 100000}
+WALL_CAP = {"quick": 100, "thorough": 1500}
 RULE = ("one case = one generated history for 1-3 games: config swarm (balls_per_game 1-3, max_players 1-4, "
         "num_balls_known 1-5, wait_for_empty_playfields on/off, handler priority), a chain of timed requests (start "
         "button / start event, add-player button / event, drains of k balls, armed ball saves, extra-ball awards, "
@@ -728,7 +728,7 @@ def execute(ctx, plan):
             if not orc.active and a != "add_ev":
                 # 'after the game has ended no game is active and a new one can start': only required once the
                 # machine had time to settle (attract restarts within the instant of game_ended)
-                settled = orc.phase == "idle" and (orc.t_ended is None or now - orc.t_ended > LIVE_BOUND)
+                settled = orc.phase in ("idle", "game_ended") and (orc.t_ended is None or now - orc.t_ended > LIVE_BOUND)
                 if settled and orc.start_pending_t is None:
                     orc.start_pending_t = now
                     if orc.games >= 1:
